@@ -8,13 +8,16 @@ Local Open Scope N_scope.
 
 Record scase := {
   sc_force : bool; sc_store : store; sc_rv : N; sc_uid : N; sc_sets : list oset;
+  sc_phases : list osphase; sc_nss : list (N * bool);     (* ObjectSetPhases and environment Namespaces of the world *)
   sc_kind : N; sc_ns : N; sc_name : N;
   (* observation *)
-  sc_res : sres; sc_events : list sev; sc_post : store; sc_sets' : list oset; sc_rv' : N; sc_uid' : N
+  sc_res : sres; sc_events : list sev; sc_post : store; sc_sets' : list oset; sc_phases' : list osphase;
+  sc_rv' : N; sc_uid' : N
 }.
 
 Definition sc_world (c : scase) : sworld :=
-  {| sw_w := {| w_store := sc_store c; w_rv := sc_rv c; w_uid := sc_uid c |}; sw_sets := sc_sets c |}.
+  {| sw_w := {| w_store := sc_store c; w_rv := sc_rv c; w_uid := sc_uid c |}; sw_sets := sc_sets c;
+     sw_phases := sc_phases c; sw_nss := sc_nss c |}.
 
 Definition model_run (c : scase) : sworld * list sev * sres :=
   objectset_pass (sc_force c) (sc_world c) (sc_kind c) (sc_ns c) (sc_name c).
@@ -37,6 +40,33 @@ Definition oset_eqb (a b : oset) : bool :=
   list_eqb cond_eqb (os_conds a) (os_conds b) && list_eqb okey_eqb (os_ctrlof a) (os_ctrlof b) &&
   list_eqb nn_eqb (os_remotes a) (os_remotes b).
 
+Definition osphase_eqb (a b : osphase) : bool :=
+  oid_eqb (op_id a) (op_id b) && (oi_uid (op_id a) =? oi_uid (op_id b)) && (op_rv a =? op_rv b) && Z.eqb (op_gen a) (op_gen b) &&
+  list_eqb oref_eqb (op_owners a) (op_owners b) && Bool.eqb (op_deleting a) (op_deleting b) && Bool.eqb (op_fin a) (op_fin b) &&
+  Bool.eqb (op_orphan a) (op_orphan b) && (op_pkg a =? op_pkg b) && (op_class a =? op_class b) &&
+  Bool.eqb (op_paused a) (op_paused b) && Z.eqb (op_revision a) (op_revision b) && list_eqb N.eqb (op_prev a) (op_prev b) &&
+  list_eqb pobj_eqb (op_objects a) (op_objects b) && list_eqb cond_eqb (op_conds a) (op_conds b) &&
+  list_eqb okey_eqb (op_ctrlof a) (op_ctrlof b).
+
+(** Phase objects are compared as a finite map keyed by kind, namespace and name. *)
+Definition phases_sub (a b : list osphase) : bool :=
+  forallb (fun p => match find_phase b (oi_kind (op_id p)) (oi_ns (op_id p)) (oi_name (op_id p)) with
+                    | Some q => osphase_eqb p q | None => false end) a.
+Definition phases_eqb (a b : list osphase) : bool := phases_sub a b && phases_sub b a && Nat.eqb (length a) (length b).
+
+Definition pev_eqb (a b : pev) : bool :=
+  match a, b with
+  | PGet n1 r1, PGet n2 r2 => (n1 =? n2) && option_eqb osphase_eqb r1 r2
+  | PCreate n1 r1, PCreate n2 r2 => (n1 =? n2) && option_eqb osphase_eqb r1 r2
+  | PPause n1 p1 r1, PPause n2 p2 r2 => (n1 =? n2) && Bool.eqb p1 p2 && option_eqb osphase_eqb r1 r2
+  | PDelete n1 r1, PDelete n2 r2 => (n1 =? n2) && dres_eqb r1 r2
+  | PStrip n1 o1, PStrip n2 o2 => (n1 =? n2) && Bool.eqb o1 o2
+  | PFinalizer n1 a1 o1, PFinalizer n2 a2 o2 => (n1 =? n2) && Bool.eqb a1 a2 && Bool.eqb o1 o2
+  | PStatus n1 c1 k1 o1, PStatus n2 c2 k2 o2 =>
+      (n1 =? n2) && list_eqb cond_eqb c1 c2 && list_eqb okey_eqb k1 k2 && Bool.eqb o1 o2
+  | _, _ => false
+  end.
+
 Definition mev_eqb (a b : mev) : bool :=
   match a, b with
   | MFinalizer x1 y1, MFinalizer x2 y2 => Bool.eqb x1 x2 && Bool.eqb y1 y2
@@ -50,6 +80,7 @@ Definition sev_eqb (a b : sev) : bool :=
   match a, b with
   | SMember x, SMember y => ev_eqb x y
   | SMeta x, SMeta y => mev_eqb x y
+  | SPhase x, SPhase y => pev_eqb x y
   | _, _ => false
   end.
 
@@ -65,7 +96,8 @@ Definition sres_eqb (a b : sres) : bool :=
 Definition agree_parts (c : scase) : bool * bool * bool * bool * bool :=
   let '(sw, e, r) := model_run c in
   (sres_eqb r (sc_res c), list_eqb sev_eqb e (sc_events c), store_eqb (w_store (sw_w sw)) (sc_post c),
-   list_eqb oset_eqb (sw_sets sw) (sc_sets' c), (w_rv (sw_w sw) =? sc_rv' c) && (w_uid (sw_w sw) =? sc_uid' c)).
+   list_eqb oset_eqb (sw_sets sw) (sc_sets' c) && phases_eqb (sw_phases sw) (sc_phases' c),
+   (w_rv (sw_w sw) =? sc_rv' c) && (w_uid (sw_w sw) =? sc_uid' c)).
 
 Definition agree (c : scase) : bool :=
   let '(a, b, d, e, f) := agree_parts c in a && b && d && e && f.
